@@ -20,3 +20,4 @@ PROPS['C20'] = ('transport_family', 'c20')
 PROPS['C14'] = ('registry_family', 'c14')
 PROPS['C09'] = ('system_family', 'c09')
 PROPS['C02'] = ('system_family', 'c02')
+PROPS['C18'] = ('system_family', 'c18')
